@@ -105,6 +105,14 @@ def o_loglik(sc):
     l1 = core.impl(lambda: np.asarray(gt.log_likelihood(a * sc["X"] + b), float))
     if isinstance(l1, core.ImplError) or not core.close(l1, l0 - np.sum(np.log(np.abs(a))), 1e-8, 1e-6):
         return {"sig": "loglik-shift", "what": f"log-likelihoods {l1!r} vs original {l0.tolist()} - sum log|a| {np.sum(np.log(np.abs(a)))}"}
+    # the same model converted to the new units in place (augmented assignment on the machine's own arrays)
+    import copy
+    g2 = copy.deepcopy(g)
+    g2.means = a * np.asarray(sc["m"]) + b
+    g2.variances *= a * a
+    l2 = core.impl(lambda: np.asarray(g2.log_likelihood(a * sc["X"] + b), float))
+    if isinstance(l2, core.ImplError) or not core.close(l2, l0 - np.sum(np.log(np.abs(a))), 1e-8, 1e-6):
+        return {"sig": "loglik-shift", "what": f"model converted in place (variances *= a^2): log-likelihoods {l2!r} vs original {l0.tolist()} - sum log|a| {np.sum(np.log(np.abs(a)))}"}
     s0, s1 = g.acc_stats(sc["X"]), gt.acc_stats(a * sc["X"] + b)
     if not core.close(s0.n, s1.n, 1e-7, 1e-8):
         return {"sig": "responsibilities-not-invariant", "what": f"{np.asarray(s0.n).tolist()} vs {np.asarray(s1.n).tolist()}"}
